@@ -44,6 +44,7 @@ type c17case struct {
 	Mode    colmodel.Mode
 	Prior   bool // a valid all-known template with the same id was accepted before
 	Other   bool // another template (id 301) announced the same unknown elements with different widths before
+	Pad     bool // the data set ends with set padding: min(4, shortest possible record - 1) zero bytes
 }
 
 func c17build(c c17case) (tmsg, dmsg []byte, names []string) {
@@ -75,6 +76,25 @@ func c17build(c c17case) (tmsg, dmsg []byte, names []string) {
 			vals = append(vals, b)
 		}
 		recs = append(recs, vals)
+	}
+	if c.Pad {
+		min := 0
+		for _, f := range t.Fields {
+			if f.Len == refcodec.VarLen {
+				min++
+			} else {
+				min += int(f.Len)
+			}
+		}
+		pad := min - 1
+		if pad > 4 {
+			pad = 4
+		}
+		var body []byte
+		for _, r := range recs {
+			body = append(body, refcodec.EncodeRecord(t, r)...)
+		}
+		return refcodec.TemplateMsg(h, t), refcodec.Msg(h, t.ID, append(body, make([]byte, pad)...)), names
 	}
 	return refcodec.TemplateMsg(h, t), refcodec.DataMsg(h, t, recs), names
 }
@@ -181,12 +201,15 @@ func runC17(tier, replay string) int {
 			for rot := 0; rot < rots; rot++ {
 				for _, nrec := range []int{1, 2} {
 					for _, m := range []colmodel.Mode{colmodel.Strict, colmodel.Keep, colmodel.Drop} {
-						cases = append(cases, c17case{append([]int{}, prefix...), rot, nrec, m, false, false})
+						cases = append(cases, c17case{append([]int{}, prefix...), rot, nrec, m, false, false, false})
+						if rot == 0 {
+							cases = append(cases, c17case{append([]int{}, prefix...), rot, nrec, m, false, false, true})
+						}
 						if nrec == 1 && rot == 0 {
-							cases = append(cases, c17case{append([]int{}, prefix...), rot, nrec, m, true, false})
+							cases = append(cases, c17case{append([]int{}, prefix...), rot, nrec, m, true, false, false})
 						}
 						if nrec == 1 && rot <= 1 && m != colmodel.Strict {
-							cases = append(cases, c17case{append([]int{}, prefix...), rot, nrec, m, false, true})
+							cases = append(cases, c17case{append([]int{}, prefix...), rot, nrec, m, false, true, false})
 						}
 					}
 				}
@@ -251,7 +274,7 @@ func runC17(tier, replay string) int {
 	ev.Coverage = common.Coverage{
 		"states": len(tmplSeen), "transitions": 2 * len(cases), "traces_validated_against_impl": len(cases), "samples": samples,
 		"evaluations": len(cases), "distinct_nontrivial": len(cases),
-		"rule":       fmt.Sprintf("every template of arity 1..%d over 7 element kinds {known u16, known string, unknown IANA fixed(3), unknown IANA variable, unknown enterprise fixed(5), unknown enterprise variable, unknown id in a known enterprise} at every position x variable-length value rotations over {0,1,254,255,300} x {1,2} records x {strict, keep, drop}, and each template also after an earlier valid definition of the same id and (lenient modes) after another template that announced the same unknown elements with different widths; each case = template message then data message on a fresh real collector, judged by the colmodel/refcodec reference (strict: template with any unknown rejected and the data after it rejected; keep: unknown fields delivered as octet arrays with exactly the received bytes; drop: exactly the unknown fields absent; known fields always their reference value). states = distinct templates; cases are distinct by construction", maxAr),
+		"rule":       fmt.Sprintf("every template of arity 1..%d over 7 element kinds {known u16, known string, unknown IANA fixed(3), unknown IANA variable, unknown enterprise fixed(5), unknown enterprise variable, unknown id in a known enterprise} at every position x variable-length value rotations over {0,1,254,255,300} x {1,2} records x {strict, keep, drop} (each also with the data set ending in set padding), and each template also after an earlier valid definition of the same id and (lenient modes) after another template that announced the same unknown elements with different widths; each case = template message then data message on a fresh real collector, judged by the colmodel/refcodec reference (strict: template with any unknown rejected and the data after it rejected; keep: unknown fields delivered as octet arrays with exactly the received bytes; drop: exactly the unknown fields absent; known fields always their reference value). states = distinct templates; cases are distinct by construction", maxAr),
 		"exhaustive": true, "accepted_cases": accepted, "strict_rejected_cases": rejected,
 	}
 	ev.WallS = common.Since(rep.Start)
